@@ -586,9 +586,19 @@ def math_instances(formulas, limit=12):
         stack.extend(t.children())
     out = []
     L = sym.MATH_FUNCS['log10']
-    for p in list(pows.values())[:limit]:
+    ps = list(pows.values())[:limit]
+    for p in ps:
         out.append(p > 0)
         out.append(L(p) == p.arg(0))
+        a = p.arg(0)
+        if z3.is_app(a) and a.num_args() == 1 and a.decl().name() == 'log10':
+            out.append(z3.Implies(a.arg(0) > 0, p == a.arg(0)))        # 10**log10(t) = t
+    for i, a in enumerate(ps):
+        for b in ps[i + 1:]:
+            x, y = a.arg(0), b.arg(0)
+            out.append(z3.Implies(x < y, a < b))                        # 10**x strictly increasing
+            out.append(z3.Implies(y < x, b < a))
+            out.append(z3.Implies(x == y, a == b))
     ls = list(logs.values())[:limit]
     for i, a in enumerate(ls):
         for b in ls[i + 1:]:
